@@ -31,7 +31,7 @@
                    increase, minimiser of quadratics reached within the budget table, saved-at-k/restored-into-fresh
                    instance: complete state equal and continued iterates bitwise equal.
 """
-import os, sys, re, math
+import os, sys, re, math, random
 from fractions import Fraction
 sys.path.insert(0, os.path.dirname(os.path.abspath(__file__)))
 from vlib import *
@@ -319,6 +319,22 @@ def monitor(case, out):
             if not (err <= CONV_TOL * ref):
                 bad.append(("monitor:converge:%s" % shape, "%s n=%d cond=%g: after %d steps (budget %d) |x - x*|_inf = %.3g > %g * (1 + |x*|_inf)" % (shape, n, cond, total, bud, err, CONV_TOL)))
     return bad
+
+def eigs(A):
+    """eigenvalues of a symmetric matrix (cyclic Jacobi iteration)"""
+    n = len(A); M = [list(r) for r in A]
+    for _ in range(60):
+        offd = sum(M[i][j] ** 2 for i in range(n) for j in range(n) if i != j)
+        if offd <= 1e-28 * sum(M[i][i] ** 2 for i in range(n)): break
+        for p in range(n):
+            for q in range(p + 1, n):
+                if M[p][q] == 0.0: continue
+                th = 0.5 * math.atan2(2 * M[p][q], M[q][q] - M[p][p]); c, s_ = math.cos(th), math.sin(th)
+                for k in range(n):
+                    a, b = M[k][p], M[k][q]; M[k][p], M[k][q] = c * a - s_ * b, s_ * a + c * b
+                for k in range(n):
+                    a, b = M[p][k], M[q][k]; M[p][k], M[q][k] = c * a - s_ * b, s_ * a + c * b
+    return [M[i][i] for i in range(n)]
 
 _COND = {}
 def cond_of(hd, A):
@@ -711,7 +727,9 @@ def read_cases(path):
 
 # ------------------------------------------------------------------ trust-region Newton (harness/c10_trn.cpp)
 TRN_SRC = ["src/Algorithms/GradientDescent/TrustRegionNewton.cpp", "src/Core/Random.cpp"]
-TRN_RAT_N = 6          # the rational instance replays quadratics up to this dimension
+TRN_RAT_N, TRN_RAT_BITS = 4, 32      # the rational instance replays quadratics up to this dimension whose state numbers have at most that many significant bits
+TRN_CONV_COND = 1.1e4   # the convergence predicate is judged on quadratics up to this condition number (the bound of the property), counted beyond
+TRN_OBS = {}
 TRN_BUDGET = 200      # steps within which the minimiser of a strictly convex quadratic (cond <= 1e8, radius 1e-3..1e3) must be reached
 
 def trn_header(kind, n, A, b, x0, params, stream="replay", fmt=hx):
@@ -737,12 +755,22 @@ def gen_trn(rng, big=False):
                grid, AT the minimiser, or one exact Newton step away from it: the gradient becomes EXACTLY zero (0/0 in borderDistance)
        rosen   Rosenbrock-type, random start, start at the optimum, start in the region of negative curvature (normH <= 0);
                large radii: rho below 0.25 / negative / between the thresholds; other minImprovementRatio values
+       exact   multiples 2^k of the identity, integer minimiser, start c + s u with |gradient| the square of a dyadic number and
+               the radius a power of two (times |u|^2): Newton steps, border steps and the forcing tolerance are computed
+               without any rounding (the harness reports ex=1), the rational instance must be hit exactly
        indef   indefinite, singular (normH == 0) and linear (A = 0) quadratics: border steps along non-positive curvature, few steps
     every history continues well past convergence (blocks R k after the step budget)."""
-    stream = rng.choice(["spd", "spd", "spd", "axis", "axis", "rosen", "rosen", "indef"])
+    stream = rng.choice(["spd", "spd", "spd", "axis", "axis", "rosen", "rosen", "indef", "exact", "exact"])
     params = [rng.choice(TRN_RADII)]
     conv = False
-    if stream == "spd":
+    if stream == "exact":
+        n = rng.randint(1, 3); a = 2.0 ** rng.randint(-2, 3)
+        u0 = rng.choice({1: [[1], [-1]], 2: [[1, 0], [0, -1], [3, 4], [4, -3], [-3, 4]], 3: [[0, 0, 1], [1, 2, 2], [-2, 1, 2], [2, 3, 6], [0, 3, -4]]}[n])
+        r = round(math.sqrt(sum(v * v for v in u0))); sc = r * 4.0 ** rng.randint(-1, 1) / a
+        c = [float(rng.randint(-4, 4)) for _ in range(n)]; x0 = [ci + sc * ui for ci, ui in zip(c, u0)]
+        Af = [a if i == j else 0.0 for i in range(n) for j in range(n)]; b = [a * ci for ci in c]
+        params = [rng.choice([1, r * r]) * 2.0 ** rng.randint(-3, 4)]; kind = "quad"; conv = True
+    elif stream == "spd":
         n = rng.randint(1, 6); cond = rng.choice([1, 10, 100, 1e3, 1e4, 1e6, 1e8]) if n > 1 else 1
         A = spd(rng, n, cond); b = [rng.gauss(0, 3) for _ in range(n)]; x0 = [rng.uniform(-3, 3) for _ in range(n)]
         if rng.random() < 0.15:
@@ -797,12 +825,12 @@ def monitor_trn(case, out):
     """spec monitor of the trust-region Newton histories (implementation output only): [(key, message)]"""
     h = parse_trn_header(case[0]); n = h["n"]; kind = h["kind"]; stream = h["stream"]
     A = [h["A"][i * n:(i + 1) * n] for i in range(n)] if kind == "quad" else None
-    convex = kind == "quad" and stream in ("spd", "axis")
+    convex = kind == "quad" and stream in ("spd", "axis", "exact")
     shape = "TRN:%s:%s" % (kind, stream)
     bad = []
     def fail(pred, idx, msg):
         bad.append(("monitor:%s:%s" % (pred, shape), "line %d `%s` of %s n=%d delta0=%r minImprovementRatio=%r: %s" % (idx, case[idx] if idx else "N ...", shape, n, h["delta0"], h["ratio"], msg)))
-    prev = None; total = 0
+    prev = None; prevd = None; total = 0
     for idx, (l, o) in enumerate(zip(case, out)):
         if o.startswith("EXC"):
             fail("exception", idx, "the library threw: " + o[4:200]); break
@@ -814,6 +842,13 @@ def monitor_trn(case, out):
         total += steps_of(l)
         if not same_bits(d["val"], d["reval"]):
             fail("value-consistent", idx, "reported value %s != objective at the reported point %s = %s (%r vs %r)" % (d["val"], fvec(d["pt"]), d["reval"], fh(d["val"]), fh(d["reval"])))
+        if l == "S" and prevd is not None and d.get("ntrial") == "1" and "nan" not in d["tpt"]:
+            # the point evaluated by the step (point + CG step, also when rejected) lies inside the trust region of the step, up to
+            # the rounding of the addition point + step (half an ulp per coordinate) and 1e-9 relative for the CG arithmetic
+            p0 = fvec(prevd["pt"]); tp = fvec(d["tpt"]); d0 = fh(prevd["delta"])
+            moved = math.sqrt(sum((a - b) ** 2 for a, b in zip(tp, p0))); slack = math.sqrt(n) * 2.220446049250313e-16 * max(abs(v) for v in p0 + tp)
+            if not moved <= d0 * (1 + 1e-9) + slack:
+                fail("trust-region", idx, "the step evaluated the objective at %s, %r away from the point %s: outside the trust region of radius %r" % (tp, moved, p0, d0))
         if d["fin"] != "1":
             fail("finite", idx, "reported point/value not finite: %s / %s" % (d["pt"], d["val"]))
         if not (same_vec(d["grad"], d["regrad"]) and same_vec(d["hess"], d["rehess"])):
@@ -830,7 +865,9 @@ def monitor_trn(case, out):
                 fail("derivative-consistent", idx, "%s steps of this block (first: %s) keep a gradient / Hessian that is not the one of the reported point" % (d["nder"], d["derat"]))
             if d["nfin"] != "0":
                 fail("finite", idx, "%s steps of this block report non-finite point/value" % d["nfin"])
-        prev = v
+            if d["nout"] != "0":
+                fail("trust-region", idx, "%s steps of this block (first: %s) evaluated the objective outside the trust region: |trial point - point| up to %r times the radius" % (d["nout"], d["outat"], fh(d["maxout"])))
+        prev = v; prevd = d
         if bad: break
     if not bad and convex and len(out) == len(case) and total >= TRN_BUDGET:
         xs = solve(A, h["b"])
@@ -838,7 +875,14 @@ def monitor_trn(case, out):
             pt = fvec(kv(out[-1])["pt"])
             err = max(abs(a - b) for a, b in zip(pt, xs)); ref = 1 + max(abs(x) for x in xs)
             if not (err <= CONV_TOL * ref):
-                bad.append(("monitor:converge:%s" % shape, "%s n=%d delta0=%r: after %d steps (budget %d) |x - x*|_inf = %.3g > %g * (1 + |x*|_inf)" % (shape, n, h["delta0"], total, TRN_BUDGET, err, CONV_TOL)))
+                cond = cond_of(case[0], A)
+                if cond <= TRN_CONV_COND:
+                    bad.append(("monitor:converge:%s" % shape, "%s n=%d cond=%.3g delta0=%r: after %d steps (budget %d) |x - x*|_inf = %.3g > %g * (1 + |x*|_inf)" % (shape, n, cond, h["delta0"], total, TRN_BUDGET, err, CONV_TOL)))
+                else:
+                    # beyond the bounded condition of the property: counted, not judged (the evaluation noise of the objective, ~2^-53 lambda_max |x|^2,
+                    # exceeds the decrease predicted for the short step the forcing tolerance 0.5 |g| accepts: every step is rejected, the radius only shrinks)
+                    TRN_OBS["not converged within the budget, condition > %g" % TRN_CONV_COND] = TRN_OBS.get("not converged within the budget, condition > %g" % TRN_CONV_COND, 0) + 1
+            elif kind == "quad": TRN_OBS["converged within the budget"] = TRN_OBS.get("converged within the budget", 0) + 1
     return bad
 
 
@@ -862,7 +906,7 @@ def build_trn_replays(cases, io):
             if h is None: h = parse_trn_header(c[0])
             n = h["n"]
             nums = h["A"] + h["b"] + fvec(pre["pt"]) + [fh(pre["val"]), fh(pre["delta"])] + fvec(pre["grad"])
-            rat = 1 if h["kind"] == "quad" and n <= TRN_RAT_N and all(math.isfinite(v) for v in nums) else 0
+            rat = 1 if h["kind"] == "quad" and n <= TRN_RAT_N and all(math.isfinite(v) for v in nums) and max(sigbits_py(v) for v in nums) <= TRN_RAT_BITS and max(abs(v) for v in nums) < 2.0 ** 40 else 0
             line = "T %d %s %d | %s | %s | %s | %s %s %s | %s | %s | %s | %s | %s | %s" % (
                 n, h["kind"], rat, " ".join(hx(v) for v in h["A"]), " ".join(hx(v) for v in h["b"]), H(pre["pt"]), pre["val"], pre["delta"], pre["ratio"],
                 H(pre["grad"]), H(pre["hess"]), post["tval"] if post.get("ntrial") == "1" else "-", post["val"], H(post["grad"]), H(post["hess"]))
@@ -874,7 +918,7 @@ def judge_trn_replay(mout, pre, post, h):
     changes only by the factors 1/4, 1, 2; operator() is called at most once and evalDerivative exactly when the point moved."""
     m = kv(mout); mon = []
     d0, d1 = fh(pre["delta"]), fh(post["delta"])
-    if not (d1 > 0 and math.isfinite(d1)): mon.append(("monitor:trn-radius-positive", "the trust-region radius is %r after the step (before: %r)" % (d1, d0)))
+    if d0 > 1e-290 and d1 not in (d0 / 4, d0, d0 * 2): mon.append(("monitor:trn-radius-factor", "the trust-region radius went from %r to %r: not one of the factors 1/4, 1, 2" % (d0, d1)))
     if "pt" not in m: return "diff", "model printed `%s`" % mout[:100], mon
     moved = not same_vec(pre["pt"], post["pt"]); acc_impl = post["nderiv"] == "1"
     if moved and not acc_impl: mon.append(("monitor:trn-accept-without-derivative", "the point changed without an evalDerivative call"))
@@ -890,18 +934,30 @@ def judge_trn_replay(mout, pre, post, h):
     rho = fh(m["rho"]); sol = fvec(m["sol"]); ns = sum(v * v for v in sol)
     if post["ntrial"] == "1" and (any(abs(rho - t) <= 1e-6 * max(1.0, abs(rho)) for t in (0.25, 0.75, fh(pre["ratio"]))) or abs(ns - 0.99 * d0 * d0) <= 1e-6 * d0 * d0):
         return cls + "/threshold-rounding-sensitive", None, mon
-    # double instance
+    # double instance.  The CG iterates of the code (BLAS summation order) and of the model (left-to-right sums) differ by rounding
+    # errors; the conjugate-gradient recurrences control the RESIDUAL H s + g, the step itself carries these errors amplified by
+    # the inverse Hessian (1e-8 was seen at condition 1e3 after n iterations).  Two steps agree when they agree to 1e-9 directly
+    # or, failing that, in the residual: |H (s_model - s_impl)|_inf <= 1e-9 |g|_inf (class residual-metric)
+    n_ = h["n"]; hs = fvec(pre["hess"]); Hm = [hs[i_ * n_:(i_ + 1) * n_] for i_ in range(n_)]; gmax = max([abs(v) for v in fvec(pre["grad"])] + [1e-300])
+    def close(a, b):
+        sc_ = max([1.0] + [abs(v) for v in b])
+        if all(abs(x - y) <= TOL * sc_ for x, y in zip(a, b)): return 1
+        dlt = [x - y for x, y in zip(a, b)]
+        if all(abs(sum(Hm[i_][j_] * dlt[j_] for j_ in range(n_))) <= TOL * gmax for i_ in range(n_)): return 2
+        return 0
+    metric = 1
     if post["ntrial"] == "1":
-        tp = fvec(post["tpt"]); tm = fvec(m["trial"]); sc = max([1.0] + [abs(v) for v in tp])
-        if any(not abs(a - b) <= TOL * sc for a, b in zip(tm, tp)):
-            return cls, "trial point (point + CG step): model (double instance) %s, implementation %s" % (tm, tp), mon
+        tp = fvec(post["tpt"]); tm = fvec(m["trial"])
+        metric = close(tm, tp)
+        if not metric: return cls, "trial point (point + CG step): model (double instance) %s, implementation %s" % (tm, tp), mon
     elif m["pred"] not in ("0x0p+0", "-0x0p+0"):
         return cls, "the implementation evaluated nothing (solution.first == 0), the model's predicted change is %s" % m["pred"], mon
     if (m["acc"] == "1") != acc_impl: return cls, "acceptance: model %s (rho = %r), implementation %s" % (m["acc"], rho, acc_impl), mon
     if fh(m["delta"]) != d1: return cls, "radius: model %r, implementation %r (rho = %r)" % (fh(m["delta"]), d1, rho), mon
     pm = fvec(m["pt"]); pi = fvec(post["pt"]); sc = max([1.0] + [abs(v) for v in pi])
-    if any(not abs(a - b) <= TOL * sc for a, b in zip(pm, pi)): return cls, "point: model (double instance) %s, implementation %s" % (pm, pi), mon
+    if not close(pm, pi): return cls, "point: model (double instance) %s, implementation %s" % (pm, pi), mon
     if not abs(fh(m["val"]) - fh(post["val"])) <= TOL * max(1.0, abs(fh(post["val"]))): return cls, "value: model %r, implementation %r" % (fh(m["val"]), fh(post["val"])), mon
+    if metric == 2: cls += "/residual-metric"
     # rational instance
     if m.get("q") == "1":
         exact = post["ex"] == "1" and m["sqex"] == "1"
@@ -916,7 +972,7 @@ def judge_trn_replay(mout, pre, post, h):
             if Fraction(d1) != qfrac(m["xdelta"]): return cls, "exact regime: radius of the rational model %s, implementation %r" % (m["xdelta"], d1), mon
             return cls + "/rational-exact", None, mon
         qp = fvec(m["qpt"])
-        if any(not abs(a - b) <= TOL * sc for a, b in zip(qp, pi)): return cls, "point: rational model %s, implementation %s" % (qp, pi), mon
+        if not close(qp, pi): return cls, "point: rational model %s, implementation %s" % (qp, pi), mon
         if fh(m["qdelta"]) != d1: return cls, "radius: rational model %r, implementation %r" % (fh(m["qdelta"]), d1), mon
         if not abs(fh(m["qval"]) - fh(post["val"])) <= TOL * max(1.0, abs(fh(post["val"]))): return cls, "value: rational model %r, implementation %r" % (fh(m["qval"]), fh(post["val"])), mon
         return cls + "/rational-1e-9", None, mon
@@ -985,6 +1041,12 @@ def main():
         cases += [gen_lbfgs(rng, big) for _ in range(400 if not big else 4000)]
         cases += [gen_rprop(rng, big) for _ in range(400 if not big else 4000)]
 
+
+    trn_cases = [c for c in cases if c[0].startswith("N ")]
+    cases = [c for c in cases if not c[0].startswith("N ")]
+    if not ck.replay:
+        trng = random.Random(ck.seed * 7919 + 10)      # its own generator: the other streams of a seed stay what they were
+        trn_cases += [gen_trn(trng, big) for _ in range(1500 if not big else 12000)]
 
     # ------------------------------------------------------------------ single line-search calls: implementation first, its trial
     # step lengths (the oracle of the model) are read back from the evaluation log of the hooked objective
@@ -1160,13 +1222,94 @@ def main():
             "" if not rdis[kind_] else "%d disagreements, first: %s" % (len(rdis[kind_]), rdis[kind_][0][1]))
         ck.cov[nm + "_replayed_steps"] = rstats[kind_]
 
+    # ------------------------------------------------------------------ trust-region Newton: monitors on whole histories, every
+    # single step replayed by the extracted tr_step (trustRegionCG + radius / acceptance rule) from the state the C++ reports
+    tio = run_cases(trn_exe, trn_cases, os.path.join(tmpd, "trn_impl.txt"), timeout=3000)
+    def trn_one(lines):
+        o_, rc_, e_ = run_cases(trn_exe, [lines], os.path.join(tmpd, "trn_shrink.txt"), timeout=600)[0]
+        if rc_ != 0: return [("monitor:crash:TRN", "implementation crashed/stopped after %d of %d lines (rc=%s) %s" % (len(o_), len(lines), rc_, e_.strip()[-200:]))], o_
+        return monitor_trn(lines, o_), o_
+    def trn_report(ci, key):
+        c = trn_cases[ci]; small = c
+        if len(c) > 2: small = [c[0]] + ddmin(c[1:], lambda ops: any(k == key for k, _ in trn_one([c[0]] + ops)[0]), max_runs=60)
+        # turn the last block R k into the single steps up to the first failing one
+        if small[-1].startswith("R "):
+            k_ = int(small[-1].split()[1])
+            for j in range(1, min(k_, 400) + 1):
+                cand = small[:-1] + ["S"] * j
+                if any(k == key for k, _ in trn_one(cand)[0]): small = cand; break
+        msgs, o_ = trn_one(small)
+        cf = ck.write_replay("case_%s_%d.txt" % (re.sub(r"[^A-Za-z0-9]+", "_", key)[:60], ci), "\n".join(small) + "\n")
+        h_ = parse_trn_header(small[0])
+        return {"case_file": cf, "case": small, "objective": ("0.5 x'Ax - b'x" if h_["kind"] == "quad" else "sum p (x[i+1]-x[i]^2)^2 + (1-x[i])^2, p = A[0]"), "A": h_["A"], "b": h_["b"], "start": h_["x0"],
+                "initial_radius": h_["delta0"], "minImprovementRatio": h_["ratio"], "implementation_output": o_[-3:], "monitor": [m for _, m in msgs],
+                "replay_cmd": "python3 tools/c10.py --replay %s" % cf}, msgs
+    tmon = {}
+    for ci, c in enumerate(trn_cases):
+        o_, rc_, e_ = tio[ci]
+        msgs = ([("monitor:crash:TRN", "implementation crashed/stopped after %d of %d lines (rc=%s) %s" % (len(o_), len(c), rc_, e_.strip()[-200:]))] if rc_ != 0 else monitor_trn(c, o_))
+        for key, msg in msgs[:1]: tmon.setdefault(key, []).append((ci, msg))
+    n_unknown_t = 0
+    for key in sorted(tmon)[:8]:
+        ci, msg = tmon[key][0]
+        if ck.match_known(key) is None: n_unknown_t += len(tmon[key])
+        rp, msgs = trn_report(ci, key); rp["cases_failing_with_this_key"] = len(tmon[key])
+        ck.violation(key, rp, "spec monitor fails on the implementation (TrustRegionNewton, %d histories): %s" % (len(tmon[key]), next((m for k, m in msgs if k == key), msg)))
+    for key in sorted(tmon)[8:]:
+        if ck.match_known(key) is None: n_unknown_t += len(tmon[key])
+    trn_steps = sum(steps_of(l) for c in trn_cases for l in c[1:])
+    ck.oblige("spec monitors (value = objective at the point, gradient / Hessian = derivatives at the point, finite, never increases, trial point inside the trust region, minimiser of strictly convex quadratics within %d steps) after init and after every one of %d steps of %d TrustRegionNewton histories" % (TRN_BUDGET, trn_steps, len(trn_cases)),
+              n_unknown_t == 0, "" if n_unknown_t == 0 else "%d histories fail under keys %s" % (n_unknown_t, sorted(k for k in tmon if ck.match_known(k) is None)[:6]))
+
+    treps = build_trn_replays(trn_cases, tio)
+    trout = run_cases(model, [[r[2]] for r in treps], os.path.join(tmpd, "trn_model.txt"))
+    tstats = {}; tdis = []; trmon = {}
+    for ri, ((ci, idx, line, pre, post, h_), (o_, rc_, e_)) in enumerate(zip(treps, trout)):
+        if rc_ != 0 or not o_: raise RuntimeError("model driver failed on the replay line %s: %s" % (line[:300], e_))
+        cls_, diff, msgs = judge_trn_replay(o_[0], pre, post, h_)
+        tstats[cls_] = tstats.get(cls_, 0) + 1
+        for key, msg in msgs[:1]: trmon.setdefault(key, []).append((ri, msg))
+        if diff: tdis.append((ri, diff))
+    def trn_replay_obj(ri):
+        ci, idx, line, pre, post, h_ = treps[ri]
+        cf = ck.write_replay("case_trn_step_%d.txt" % ri, "\n".join(trn_cases[ci][:idx + 1]) + "\n")
+        return {"case_file": cf, "case": trn_cases[ci][:idx + 1], "step_replayed": "line %d" % idx, "implementation_state_before": tio[ci][0][idx - 1], "implementation_state_after": tio[ci][0][idx],
+                "model_input": line, "model_output": trout[ri][0][0], "replay_cmd": "python3 tools/c10.py --replay %s" % cf}
+    for key in sorted(trmon):
+        ri, msg = trmon[key][0]
+        ck.violation(key, trn_replay_obj(ri), "spec monitor fails on the implementation (TrustRegionNewton, %d steps): %s" % (len(trmon[key]), msg))
+    n_unknown_tr = sum(len(v) for k, v in trmon.items() if ck.match_known(k) is None)
+    ck.oblige("spec monitors on %d single TrustRegionNewton steps (trial point inside the trust region; evalDerivative exactly when the point moves; radius changes by 1/4, 1 or 2)" % len(treps),
+              n_unknown_tr == 0, "" if n_unknown_tr == 0 else "keys %s" % sorted(trmon)[:4])
+    what_t = "C10TrustRegion (tr_step: tr_cg = trustRegionCG / borderDistance / errorDifference, radius update, acceptance rule; double and rational instance) vs TrustRegionNewton.cpp (step)"
+    if tdis and n_unknown_tr == 0 and n_unknown_t == 0:
+        ri, diff = tdis[0]; rp = trn_replay_obj(ri); rp["difference"] = diff; rp["broken"] = "correspondence " + what_t
+        ck.violation("correspondence-trn", rp, "correspondence %s no longer checks (%d of %d replayed steps differ, first: %s); the spec monitors pass on every explored input" % (what_t, len(tdis), len(treps), diff), no_input=True)
+    ck.oblige("correspondence %s on %d steps replayed from the implementation's own previous state (%s)" % (what_t, len(treps), ", ".join("%s %d" % kv_ for kv_ in sorted(tstats.items()))[:3000]),
+              not tdis, "" if not tdis else "%d disagreements, first: %s" % (len(tdis), tdis[0][1]))
+    if not ck.replay:
+        # every case split of step / trustRegionCG must have been exercised by the run
+        need = {"zero gradient (0/0 in borderDistance, NaN step rejected)": r"\(zero-gradient\)", "CG stops at the tolerance": r"^tol/", "border reached in the first CG iteration": r"^border@it0",
+                "border reached in a later CG iteration (z != 0)": r"^border@it[123]", "non-positive curvature (normH <= 0)": r"^negcurv@", "rho < 0.25 (radius / 4)": r"/shrink/",
+                "rho > 0.75 on the border (radius * 2)": r"/grow/", "rho between the thresholds (radius kept)": r"/rho<=\.75/keep/accept", "rejected step (rho < minImprovementRatio)": r"/reject",
+                "accepted with a shrunk radius (ratio <= rho < 0.25)": r"/rho<\.25/shrink/accept", "rejected with the radius kept (0.25 <= rho < ratio)": r"/rho<ratio/keep/reject",
+                "exact regime (no rounding in the whole step, rational instance hit exactly)": r"/rational-exact"}
+        missing = [k_ for k_, pat in need.items() if not any(re.search(pat, c_) for c_ in tstats)]
+        ck.oblige("the replayed TrustRegionNewton steps exercise every case split of step / trustRegionCG (%d classes)" % len(need), not missing, "not exercised: %s" % missing if missing else "")
+    ck.cov["trn_replayed_steps"] = tstats
+    ck.cov["trn_histories"] = len(trn_cases); ck.cov["trn_steps"] = trn_steps
+    tcls = {}
+    for c in trn_cases: k_ = "TRN/" + " ".join(c[0].split()[1:4:2]); tcls[k_] = tcls.get(k_, 0) + 1
+    ck.cov["trn_convergence"] = dict(TRN_OBS)
+    ck.cov["trn_radius_underflow_histories"] = sum(1 for c, (o_, rc_, e_) in zip(trn_cases, tio) if o_ and "delta=" in o_[-1] and not fh(kv(o_[-1])["delta"]) > 0)
+
     # ------------------------------------------------------------------ coverage
     steps = sum(steps_of(l) for c in cases for l in c[1:])
     lines = sum(len(c) for c in cases)
     cls = {}
     for c in cases:
         h = c[0].split(); k = "%s/%s/%s" % (h[1], h[2] if h[1] in LS_OPTS else "-", h[3]); cls[k] = cls.get(k, 0) + 1
-    ck.cov["evaluations"] = lines + len(ls_lines)
+    ck.cov["evaluations"] = lines + len(ls_lines) + sum(len(c) for c in trn_cases) + len(treps)
     ck.cov["distinct_nontrivial"] = len(set("\n".join(c) for c in cases if sum(steps_of(l) for l in c[1:]) >= 3))
     ck.cov["rule"] = ("optimizer histories: header (optimizer, line-search type, objective, start) + steps S / step blocks R k / save-restore points W; "
                       "evaluations = state lines judged (each line: value==objective, finite, feasible, monotone, restored==original; R lines aggregate the per-step predicates of k steps, "
@@ -1178,6 +1321,7 @@ def main():
         "rule": "only L-BFGS m_bdiag = y'y / y's; the implementation's double must lie within 2n+1 ulps (n = dimension: 2 inner products of n terms + 1 division, half an ulp per operation, rounded up) of the exact rational; every model value that is a double is compared for equality"}
     ck.cov["comparisons_stopped_at_exact_minimiser"] = stats.get("stopped_at_minimiser", 0)
     ck.cov["comparisons_stopped_near_minimiser_inexact_regime"] = stats.get("stopped_near_minimiser", 0)
+    cls.update(tcls)
     ck.cov["classes"] = cls
     ck.cov["save_restore_points"] = sum(1 for c in cases for l in c if l == "W")
     ck.cov["convergence_runs"] = sum(1 for c in cases if c[0].split()[3] == "quad" and c[0].split()[1] in LIB_LS and "x" in c[0] and sum(steps_of(l) for l in c[1:]) >= 200)
